@@ -144,6 +144,7 @@ class FakeSelene:
     def __init__(self, panics: bool):
         self.panics = panics
         self.calls = 0
+        self.fail_at: int | None = None    # transient fault: the next run dies in shot k
 
     def run_shots(self, simulator, n_qubits, n_shots=1, error_model=None, runtime=None,
                   event_hook=None, verbose=False, timeout=None, results_logfile=None,
@@ -153,11 +154,16 @@ class FakeSelene:
                            spec_of(runtime), random_seed, n_qubits, n_shots, shot_offset,
                            shot_increment)
 
-        def shot_iter(bits, err):
+        fail_at, self.fail_at = self.fail_at, None
+
+        def shot_iter(i, bits, err):
+            if i == fail_at:
+                yield from bits[:1]
+                raise RuntimeError("transient: emulator process lost")
             yield from bits
             if err:
                 raise RuntimeError("fake panic")
-        return (shot_iter(b, e) for b, e in res)
+        return (shot_iter(i, b, e) for i, (b, e) in enumerate(res))
 
 
 # ------------------------------------------------------------------------ record model
@@ -246,7 +252,8 @@ def run_case(ch: Choices, params: dict) -> dict:
     viol: list[dict] = []
     real = ch.draw(params.get("real_every", 3), "backend") == 0
     panics = ch.draw(4, "program") == 0
-    faults = {"aliased_simulator": 0, "failing_run": 0, "preseeded_user_object": 0}
+    faults = {"aliased_simulator": 0, "failing_run": 0, "preseeded_user_object": 0,
+              "transient_run_failure": 0}
     probes = {"sibling_with_seed_on_shared_sim": 0, "run_between_derivations": 0,
               "n_processes=2_run": 0, "rerun_of_seeded_handle": 0, "builder_ops": 0,
               "seeded_runs_compared": 0}
@@ -414,8 +421,31 @@ def run_case(ch: Choices, params: dict) -> dict:
                 else:
                     i = ch.draw(len(handles), "run_handle")
                 h, rec = handles[i], records[i]
+                # transient fault (fake back end): the emulator process is lost in shot k of
+                # THIS run; nothing about the configuration changes
+                transient = None
+                if not real and ch.draw(6, "transient_fault") == 0:
+                    transient = ch.draw(max(rec["shots"], 1), "transient_shot")
+                    inst.fail_at = transient
+                    faults["transient_run_failure"] += 1
                 got = run_handle(h)
-                history.append(f"{names[i]}.run()  # seed={rec['seed']}")
+                if not real:
+                    inst.fail_at = None
+                history.append(f"{names[i]}.run()  # seed={rec['seed']}"
+                               + (f", emulator process lost in shot {transient}" if transient is not None else ""))
+                if transient is not None:
+                    # narrow relaxation: this run may fail, its completed shots must be a
+                    # prefix of the reference; it is not recorded as the handle's result
+                    if rec["seed"] is not None:
+                        want = reference_run(inst, rec, real, panics)
+                        k_done = len(got["shots"])
+                        if got["shots"] != want["shots"][:k_done]:
+                            violation("NOT_REPRODUCIBLE", {"against": "reference_prefix"},
+                                      {f"{names[i]}.run() completed shots": want["shots"][:k_done]},
+                                      {f"{names[i]}.run() completed shots": got["shots"]})
+                    log.add("run-transient", names[i], transient, got["error"])
+                    check_all("run", None)
+                    continue
                 if got["error"]:
                     faults["failing_run"] += 1
                 if rec["n_processes"] == 2:
